@@ -651,8 +651,17 @@ class PTA:
                 if note not in self.unsupported:
                     self.unsupported.append(note)
         elif isinstance(st, ast.Match):
-            self.ev(st.subject)
+            sv = self.ev(st.subject)
             for c in st.cases:
+                for pn in ast.walk(c.pattern):
+                    if isinstance(pn, ast.MatchAs) and pn.name:
+                        var = self.var_for_name(pn.name, f)
+                        if var:
+                            self.add(var, sv)      # a capture holds (a component of) the subject
+                    if isinstance(pn, ast.MatchValue):
+                        self.ev(pn.value)
+                if c.guard is not None:
+                    self.ev(c.guard)
                 self.exec_block(c.body)
         else:
             note = f'{f.loc(st)}: unsupported statement {type(st).__name__}'
